@@ -53,3 +53,18 @@ Theorem C14_table_sound :
   forall tbl choose, check_table tbl = true -> LowerOK (lower_of_table tbl choose).
 Proof. exact table_sound. Qed.
 Print Assumptions C14_table_sound.
+
+(* the names `stg uncommit` generates from commit messages (uncommit.rs make_patchnames, as it
+   is run by Model/Cmd.v): never a panic, one name per commit, every name valid, colliding with
+   no patch of the stack - applied, unapplied or hidden - and with no other generated name *)
+From StgV Require Import Model.Stack Model.Cmd Proofs.UncommitNames.
+Theorem C14_uncommit_names_fresh :
+  forall lower_s, LowerOK lower_s ->
+  forall objs s commits,
+    exists pns, make_patchnames lower_s objs s commits = Some pns
+      /\ length pns = length commits
+      /\ Forall (fun n => validate n = true
+                          /\ forallb (fun d => negb (collides n d)) (all_of s) = true) pns
+      /\ ForallOrdPairs (fun a b => collides a b = false) pns.
+Proof. exact uncommit_names_fresh. Qed.
+Print Assumptions C14_uncommit_names_fresh.
